@@ -21,7 +21,9 @@ let xv_of_token tok : xval =
   match Hashtbl.find_opt token_cache tok with
   | Some x -> x
   | None ->
-    let x = (try snd (value_of_token tok) with
+    let x = (try (if String.length tok > 2 && String.sub tok 0 2 = "P:"
+                  then XFin (RQ (rat_of_dy_string (String.sub tok 2 (String.length tok - 2))))
+                  else snd (value_of_token tok)) with
       | Bad_value m -> failf "invalid value %s (%s)" tok m
       | Failure m -> failf "unparsable value %s (%s)" tok m
       | Not_found -> failf "unparsable value %s" tok) in
@@ -166,6 +168,22 @@ let run_checked (toks : string list) (cout : string list) : string =
          end done done done;
        "CHECK ok"
      | _ -> failf "malformed tri output")
+  | ["cmps"; a; x; p] ->
+    (match load [a; x; p] states, res with
+     | [(xa, va); (xx, vx); (xp, vp)], [ax; xa_; st2; ap; pa] ->
+       expect_sign "cmp(a,x)" ax (v_cmp fuel va vx);
+       expect_sign "cmp(x,a)" xa_ (v_cmp fuel vx va);
+       if string_of_int (xcmp xa xx) <> ax then failf "cmp(a,x) = %s but the numbers compare %d" ax (xcmp xa xx);
+       if string_of_int (xcmp xx xa) <> xa_ then failf "cmp(x,a) = %s but the numbers compare %d" xa_ (xcmp xx xa);
+       (* the refined object must still be the same number; the second comparison starts from its state *)
+       let va2 = value_of_state st2 in
+       if not (same_number xa (v_to_xval va2)) then failf "after the first comparison the state %s is not the number %s" st2 a;
+       expect_sign "cmp(a',p)" ap (v_cmp fuel va2 vp);
+       expect_sign "cmp(p,a')" pa (v_cmp fuel vp va2);
+       if string_of_int (xcmp xa xp) <> ap then failf "cmp(a',p) = %s but the numbers compare %d (a' = %s)" ap (xcmp xa xp) st2;
+       if string_of_int (xcmp xp xa) <> pa then failf "cmp(p,a') = %s but the numbers compare %d (a' = %s)" pa (xcmp xp xa) st2;
+       "CHECK ok"
+     | _ -> failf "malformed cmps output")
   | ["cmpq"; a; q] ->
     (match load [a] states, res with
      | [(xa, va)], [c] ->
